@@ -126,6 +126,8 @@ def run(ctx, rep):
                            ("Le", nchain, ("-", bucket, so))}          # the chain range (bucket - symoffset)..nchain is empty
 
             def early_ok(d, val, _atoms=early_atoms):
+                if d in (nb, F_(hdr, "nbloom")):
+                    return val == "0"              # a `match` on the count itself with an arm for 0
                 atom, pol = cond_holds(d, val)
                 if atom[0] == "Eq" and len(atom) == 3:
                     atom = ("Eq",) + tuple(sorted(atom[1:], key=repr))
